@@ -79,7 +79,8 @@ Record case := {
   c_unrolled_twice : option obs;   (* apply_modifiers() twice *)
   c_unrolled_dur_first : option obs;  (* fresh build, apply_modifiers(), duration first, then operations *)
   c_stable : bool;                 (* listing twice gave the same sequence *)
-  c_reps_after : list Z            (* nr_of_repetitions of every sub-circuit after apply_modifiers *)
+  c_reps_after : list Z;           (* nr_of_repetitions of every sub-circuit after apply_modifiers *)
+  c_top_ref : list Z               (* per top-level command: the command its entry reports as referent (-1: none / not a top-level entry) *)
 }.
 
 Definition opt_obs_agree (m : obs) (i : option obs) : bool :=
